@@ -23,13 +23,18 @@ def main():
         sh(f'git -C /repo worktree add --detach {WT} HEAD')
     sh(f'git -C {WT} checkout -q --detach $(git -C /repo rev-parse HEAD); git -C {WT} checkout -- .; git -C {WT} clean -fdq')
     env = dict(os.environ, PYTHONPATH=str(WT))
-    for pid in sys.argv[1:]:
-        src = Path(f'/tmp/out-{pid}')
+    args = sys.argv[1:]
+    prefix, offset = '/tmp/out-', 0
+    if args and args[0].startswith('--round='):
+        rnd = int(args.pop(0).split('=')[1])
+        prefix, offset = f'/tmp/out{rnd}-', 2 * (rnd - 1)
+    for pid in args:
+        src = Path(f'{prefix}{pid}')
         for i in (1, 2, 3):
             patch, demo, notes = src / f'patch{i}.diff', src / f'demo{i}.py', src / f'notes{i}.md'
             if not patch.exists() or not demo.exists():
                 continue
-            name = f'{pid}-{i}'
+            name = f'{pid}-{i + offset}'
             sh(f'git -C {WT} checkout -- .; git -C {WT} clean -fdq')
             clean = subprocess.run(['/venv/bin/python', str(demo)], env=env, capture_output=True, text=True, cwd=str(src), timeout=900)
             a = sh(f'git -C {WT} apply {patch}')
